@@ -205,6 +205,22 @@ def p_images_transforms_then_reuse():
     return _out(np.concatenate([np.ravel(np.asarray(o)).astype(np.complex128) for o in outs]), changed)
 
 
+def p_waves_normalize_modes():
+    """every (space, in_place) mode of Waves.normalize on real-space waves and on waves held in reciprocal space; in_place works on a
+    private copy so that the modes do not see each other"""
+    import abtem
+    from abtem.core.utils import get_dtype
+    a = _rng_array((2, 14, 12), seed=21).astype(get_dtype(complex=True))
+    outs = []
+    for space in ("reciprocal",):                 # space="real" raises NotImplementedError on the pinned tree
+        for in_place in (False, True):
+            w = abtem.Waves(a.copy(), energy=100e3, sampling=(0.2, 0.25), ensemble_axes_metadata=[abtem.core.axes.OrdinalAxis(values=(0, 1))])
+            outs.append(np.asarray(w.normalize(space=space, in_place=in_place).array))
+            wk = w.ensure_reciprocal_space() if hasattr(w, "ensure_reciprocal_space") else w
+            outs.append(np.asarray(wk.normalize(space=space, in_place=in_place).ensure_real_space().array) if wk is not w else outs[-1])
+    return _out(np.concatenate([np.ravel(o).astype(np.complex128) for o in outs]))
+
+
 PIPES = {
     "probe_scan_annular": p_probe_scan_annular,
     "probe_scan_flexible_lazy": p_probe_scan_flexible_lazy,
@@ -225,6 +241,7 @@ PIPES = {
     "center_of_mass": p_center_of_mass,
     "waves_transforms_then_reuse": p_waves_transforms_then_reuse,
     "images_transforms_then_reuse": p_images_transforms_then_reuse,
+    "waves_normalize_modes": p_waves_normalize_modes,
 }
 
 
